@@ -359,3 +359,94 @@ func c17formats(c *core.Check) {
 }
 
 var _ = token.ADD
+
+// ---------------------------------------------------------------------------------------------------------------------
+// C01/C06: two generated packages are the same package iff their import paths are equal; the last path segment (the Go
+// package name) is shared by unrelated namespaces (`a.base` and `b.base`). Rule: wherever the backend compares two
+// results of CodeUtils.Import to decide whether a reference needs a package qualifier, both operands are the import path
+// (second result), never the package name (first result).
+func pkgIdentityByPath(c *core.Check) {
+	pk := c.Prog.Pkg(golangRel)
+	info := pk.TypesInfo
+	n := 0
+	for _, f := range pk.Syntax {
+		if strings.HasSuffix(c.Prog.Fset.File(f.Pos()).Name(), "_test.go") {
+			continue
+		}
+		for _, d := range f.Decls {
+			fd, ok := d.(*ast.FuncDecl)
+			if !ok || fd.Body == nil {
+				continue
+			}
+			kind := map[types.Object]string{}
+			ast.Inspect(fd.Body, func(nd ast.Node) bool {
+				as, ok := nd.(*ast.AssignStmt)
+				if !ok || len(as.Rhs) != 1 {
+					return true
+				}
+				call, ok := as.Rhs[0].(*ast.CallExpr)
+				if !ok {
+					return true
+				}
+				fn := rules.Callee(info, call)
+				if fn == nil || fn.Pkg() != pk.Types {
+					return true
+				}
+				set := func(e ast.Expr, k string) {
+					if id, ok := e.(*ast.Ident); ok && id.Name != "_" {
+						o := info.Defs[id]
+						if o == nil {
+							o = info.Uses[id]
+						}
+						if o != nil {
+							kind[o] = k
+						}
+					}
+				}
+				switch fn.Name() {
+				case "Import":
+					if len(as.Lhs) == 2 {
+						set(as.Lhs[0], "package name")
+						set(as.Lhs[1], "import path")
+					}
+				case "NamespaceToPackage":
+					if len(as.Lhs) == 1 {
+						set(as.Lhs[0], "package name")
+					}
+				case "NamespaceToFullImportPath", "NamespaceToImportPath":
+					if len(as.Lhs) == 1 {
+						set(as.Lhs[0], "import path")
+					}
+				}
+				return true
+			})
+			if len(kind) == 0 {
+				continue
+			}
+			per := 0
+			ast.Inspect(fd.Body, func(nd ast.Node) bool {
+				be, ok := nd.(*ast.BinaryExpr)
+				if !ok || (be.Op != token.EQL && be.Op != token.NEQ) {
+					return true
+				}
+				x, ok1 := ast.Unparen(be.X).(*ast.Ident)
+				y, ok2 := ast.Unparen(be.Y).(*ast.Ident)
+				if !ok1 || !ok2 {
+					return true
+				}
+				kx, ky := kind[info.Uses[x]], kind[info.Uses[y]]
+				if kx == "" || ky == "" {
+					return true
+				}
+				n++
+				per++
+				key := fmt.Sprintf("%s/compare#%d", core.FuncKey(golangRel, fd), per)
+				c.Decide(kx == "import path" && ky == "import path", "package-identity-by-path", key, c.Prog.Rel(be.Pos()),
+					"package identity is decided by comparing import paths",
+					fmt.Sprintf("%s (%s) is compared with %s (%s): two different namespaces that end in the same segment have the same package name, so a reference across them is emitted without its package qualifier (undefined identifier, or silently bound to a local namesake)", x.Name, kx, y.Name, ky))
+				return true
+			})
+		}
+	}
+	c.Min("package-identity-by-path", 1)
+}
